@@ -25,7 +25,10 @@ EXPLANATION = (
     "bit-packed run (bit widths 1/3/8 x 0/3/8/13 values already consumed x n in 1..17; data bytes "
     "unknown, the group unpacker hooked), report n, lower run_remaining by n and, whenever part of a group "
     "is readable afterwards, hold the group of value k0+n (unpacked from its input offset) at entry "
-    "(k0+n) % 8 - the position the one-shot decoder would be at. "
+    "(k0+n) % 8 - the position the one-shot decoder would be at; (8) the raw bit packers, executed as cursor "
+    "skeletons for every width and counts 0..40, write exactly ceil(count*width/8) bytes and read no output "
+    "byte they have not written in the same call (a `|=` into an unzeroed tail would make the packed bytes "
+    "depend on the buffer's previous contents). "
     "Decides these clauses, not value equality of decode(encode(v)) for DELTA_*, dictionary or RLE.")
 
 RLE = "src/encoding/rle.c"
@@ -81,6 +84,8 @@ def run(ctx):
     from ..rules import rlestream
     nrs = rlestream.check(ctx)
     ctx.floor("C11 stream-decoder position scenarios", nrs, 100)
+    ctx.clause("C11.8 the raw bit packers write exactly ceil(count*width/8) bytes and never read an output byte they have not written in the same call")
+    _packers(ctx)
     run_pad_rule(ctx)
     run_order_rule(ctx)
 
@@ -162,6 +167,82 @@ def narrowing_sites(P, fns):
                 st, dt = clean_type(n.c[0].t), clean_type(n.t)
                 if W.get(st, 0) == 64 and 0 < W.get(dt, 0) <= 32 and n.c[0].cv is None:
                     yield f, n, st, dt
+
+
+def stale_output_read(acc, base="out"):
+    """(lo, hi) of the first read of the output buffer that covers a byte not written earlier in the same run - the
+    packed bytes would then depend on what the caller's buffer held before - or None."""
+    written = set()
+    for a in acc:
+        if a.base != base:
+            continue
+        if a.kind == "w":
+            written.update(range(a.lo, a.hi))
+        elif a.kind == "r" and any(b not in written for b in range(a.lo, a.hi)):
+            return a.lo, a.hi
+    return None
+
+
+def _packers(ctx):
+    """carquet_bitpack8_32 for every width 0..32 and carquet_bitpack_32 for counts 0..40 x widths: reads
+    the values it is given, writes exactly the packed size, and every output byte it reads (`|=`) it has
+    written before in the same call (cursor-skeleton execution; values unknown)."""
+    from ..rules.skeleton import Interp, Ptr, U, Budget, Stop
+    P = ctx.P
+    BP = "src/core/bitpack.c"
+    f8 = P.fn("carquet_bitpack8_32", BP)
+    fN = P.fn("carquet_bitpack_32", BP)
+    bad = None
+    runs = 0
+    try:
+        for w in range(0, 33):
+            it = Interp(P, f8, budget=300000, max_forks=64, inline_depth=4)
+            for acc, ret in it.run([Ptr("in", 0, 4), w, Ptr("out", 0, 1)]):
+                runs += 1
+                wr = set()
+                for a in acc:
+                    if a.base == "in" and (a.lo < 0 or a.hi > 32) and bad is None:
+                        bad = "carquet_bitpack8_32 width %d reads values [%d,%d)" % (w, a.lo, a.hi)
+                    if a.base == "out" and a.kind == "w":
+                        wr.update(range(a.lo, a.hi))
+                    if a.base == "out" and (a.lo < 0 or a.hi > w) and bad is None:
+                        bad = "carquet_bitpack8_32 width %d touches output [%d,%d), packed size is %d" % (w, a.lo, a.hi, w)
+                if wr != set(range(w)) and bad is None:
+                    bad = "carquet_bitpack8_32 width %d writes output bytes %s of %d" % (w, sorted(wr)[:6], w)
+                st = stale_output_read(acc)
+                if st and bad is None:
+                    bad = "carquet_bitpack8_32 width %d reads output bytes [%d,%d) it has not written: the result depends on the buffer's previous contents" % ((w,) + st)
+            if it.unknown_mem and bad is None:
+                bad = "carquet_bitpack8_32 width %d: access at a content-dependent offset" % w
+        for w in (1, 3, 7, 8, 13, 17, 31, 32):
+            for n in range(0, ctx.depth(40, 130) + 1):
+                need = (n * w + 7) // 8
+                it = Interp(P, fN, budget=600000, max_forks=64, inline_depth=4)
+                for acc, ret in it.run([Ptr("in", 0, 4), n, w, Ptr("out", 0, 1)]):
+                    runs += 1
+                    wr = set()
+                    for a in acc:
+                        if a.base == "in" and (a.lo < 0 or a.hi > 4 * n) and bad is None:
+                            bad = "carquet_bitpack_32 count %d width %d reads values [%d,%d)" % (n, w, a.lo, a.hi)
+                        if a.base == "out" and a.kind == "w":
+                            wr.update(range(a.lo, a.hi))
+                        if a.base == "out" and (a.lo < 0 or a.hi > need) and bad is None:
+                            bad = "carquet_bitpack_32 count %d width %d touches output [%d,%d), packed size is %d" % (n, w, a.lo, a.hi, need)
+                    if wr != set(range(need)) and bad is None:
+                        bad = "carquet_bitpack_32 count %d width %d writes %d of %d output bytes" % (n, w, len(wr), need)
+                    st = stale_output_read(acc)
+                    if st and bad is None:
+                        bad = ("carquet_bitpack_32 count %d width %d reads output bytes [%d,%d) it has not written: the packed bytes depend on the "
+                               "buffer's previous contents" % ((n, w) + st))
+                    if isinstance(ret, int) and ret != need and bad is None:
+                        bad = "carquet_bitpack_32 count %d width %d reports %d bytes, %d expected" % (n, w, ret, need)
+    except (Budget, Stop) as ex:
+        ctx.inconclusive("R4.skeleton", "pack-extent|%s:carquet_bitpack_32" % BP, P.where(fN.body), "skeleton execution of the packers", str(ex))
+        return
+    ctx.count("pack_skeleton_runs", runs)
+    ctx.ob("R4.skeleton", "pack-extent|%s:carquet_bitpack_32" % BP, P.where(fN.body),
+           "carquet_bitpack8_32 (widths 0..32) and carquet_bitpack_32 (counts 0..40 x 8 widths) read the values given, write exactly "
+           "ceil(count*width/8) bytes and read no output byte before writing it", bad is None, bad or "")
 
 
 def run_order_rule(ctx):
